@@ -25,6 +25,7 @@ RULE = ("Real TransitSender.connect() and TransitReceiver.connect() on the simul
         "and its link is closed. No honest path => both connect() have FAILED within 2*TIMEOUT (+relay delays) "
         "of virtual time, never pending. Non-trivial = >=2 contenders established, or >=1 rogue, or no-path. "
         "Distinct = (features, event-kind trace).")
+RULE += (' Added later: 0-2 strangers that reach a listener between get_connection_hints() and set_transit_key().')
 ASSUMPTIONS = ["simulated TCP per DESIGN 2.1", "a rogue may replay an observed handshake only without a trailing 'go' "
                "(the handshake strings are constants derived from the key; replay with 'go' is inherent to the protocol)",
                "TimeoutMixin timers run on the simulated clock"]
